@@ -12,7 +12,8 @@ TRUSTED = core.COMMON_TRUSTED + ["clingo 5.8.2 grounder/solver as the meaning of
 
 
 def run_semantic(ctx, module, level, rule, flags_list, relation, origins, extra, n_corpus, n_mut, corr=None, n_inst=4,
-                 facts_over="in", outp_choices=("auto",), one_to_one=True, assumptions=(), program_filter=None):
+                 facts_over="in", outp_choices=("auto",), one_to_one=True, assumptions=(), program_filter=None, decl_mix=True,
+                 generators=()):
     core.prepare_lean(ctx, module)
     extra = list(extra)
     if corr is not None and ctx.driver_ok:
@@ -28,6 +29,8 @@ def run_semantic(ctx, module, level, rule, flags_list, relation, origins, extra,
                                        "model": str(m.get("model"))[:500]})
             extra += [m["program"] for m in r["mismatches"][:40] if m.get("program")]
             ctx.cov["samples"].append({"correspondence": name, "evaluations": r["evaluations"], "nontrivial": r["nontrivial"]})
+    for g in generators:
+        extra += [g(ctx.rng) for _ in range((40 if ctx.quick() else 1500) // max(1, len(generators) // 2))]
     semprop.replay_known(ctx)
     qn, tn = n_corpus
     qm, tm = n_mut
@@ -35,7 +38,8 @@ def run_semantic(ctx, module, level, rule, flags_list, relation, origins, extra,
     for outp in outp_choices:
         cases += semprop.oracle_cases(ctx, flags_list, relation, (qn if ctx.quick() else tn) // len(outp_choices),
                                       (qm if ctx.quick() else tm) // len(outp_choices), origins=origins, n_inst=n_inst,
-                                      facts_over=facts_over, outp=outp, extra_programs=extra, one_to_one=one_to_one)
+                                      facts_over=facts_over, outp=outp, extra_programs=extra, one_to_one=one_to_one,
+                                      decl_mix=decl_mix)
         extra = []
     if program_filter is not None:
         cases = [c for c in cases if program_filter(c["program"])]
